@@ -126,7 +126,18 @@ inline std::function<void(const Spec &)> withMagnitudes(const std::function<void
     f(s);
     if (eligible && !eligible(s)) return;
     if ((*counter)++ % every != 0) return;
-    for (auto &m : variants) f(m.kind == 0 ? translated(s, m.a, m.b) : scaled(s, m.a, m.b));
+    for (auto &m : variants) {
+      // instances that already sit at extreme coordinates (long-net circuits) would leave the int range: not transformed
+      long long lim = 1LL << 30, worst = 0;
+      auto see = [&](long long v, long long k, long long add) { worst = std::max(worst, std::llabs(v * k + add)); };
+      long long kx = m.kind == 0 ? 1 : m.a, ky = m.kind == 0 ? 1 : m.b, ax = m.kind == 0 ? m.a : 0, ay = m.kind == 0 ? m.b : 0;
+      long long kk = std::max(kx, ky);
+      for (auto &r : s.rows) { see(r.minX, kx, ax); see(r.maxX, kx, ax); see(r.minY, ky, ay); see(r.maxY, ky, ay); }
+      for (auto &c : s.cells) { see(c.x, kx, ax); see(c.y, ky, ay); see((long long)c.x + c.w, kk, ax); see((long long)c.y + c.h, kk, ay); see(c.w, kk, 0); see(c.h, kk, 0); }
+      for (auto &n : s.nets) for (auto &p : n.pins) { see(p[1], kk, 0); see(p[2], kk, 0); }
+      if (worst >= lim) continue;
+      f(m.kind == 0 ? translated(s, m.a, m.b) : scaled(s, m.a, m.b));
+    }
   };
 }
 
